@@ -310,8 +310,11 @@ Qed.
 Ltac leaf_bool Hw H := eapply push_bool_wf; [exact Hw|exact H].
 Ltac leaf_prim Hw H := eapply push_prim_wf; [exact Hw|exact H].
 Ltac leaf_utf8 Hw H :=
-  match type of H with context [text_of_scalar ?v] => destruct (text_of_scalar v) as [[| | |?| | | |]| |]; try discriminate end;
-  eapply push_utf8_wf; [exact Hw|exact H].
+  match type of H with context [is_utf8_kind ?k] => destruct (is_utf8_kind k) end;
+  try discriminate H;
+  try (match type of H with context [text_of_scalar ?v] => destruct (text_of_scalar v) as [[| | |?| | | |]| |]; try discriminate H end);
+  try (match type of H with context [binary_of_value ?v] => destruct (binary_of_value v) as [?| |?]; cbn [bind] in H; try discriminate H end);
+  (eapply push_utf8_wf; [exact Hw|exact H]).
 
 Ltac leaf :=
   let b := fresh "b" in let b' := fresh "b'" in let Hw := fresh "Hw" in let H := fresh "H" in
